@@ -29,6 +29,8 @@ def _stiff(spec):
     from kawin.precipitation.parameters import ElasticFactors as EF
     if spec[0] == "iso":
         return EF.moduliToC(E=spec[1], nu=spec[2])
+    if spec[0] == "explicit":             # a tensor given as such (already rotated by the harness)
+        return np.array(spec[1], dtype=float)
     return EF.elasticConstantToC(spec[1], spec[2], spec[3])
 
 
@@ -74,7 +76,9 @@ def _build(case, order="low", rot_first=True, inverse="quick"):
         se.setRotationMatrix(rot)
     api = case.get("api", "tensor")      # "named": the stiffness entered through setElasticConstants / setModuli (and the precipitate versions)
     def put(spec, tensor_setter, const_setter, moduli_setter):
-        if api == "named" and spec[0] == "iso":
+        if spec[0] == "explicit":
+            tensor_setter(_stiff(spec))
+        elif api == "named" and spec[0] == "iso":
             moduli_setter(E=spec[1], nu=spec[2])
         elif api == "named":
             const_setter(spec[1], spec[2], spec[3])
@@ -175,7 +179,22 @@ def check_quadratic(case):
             out.fail("setter_order_matters", "rotation(s) %r / %r had been set before the final ones: energy %r; same final configuration without that history: %r" % (case.get("rot_hist"), case.get("rotP_hist"), E, Eh), what="rotation_history")
     if case.get("rotP") and case.get("cP"):
         out.label("precipitate_rotated")
+        # the precipitate's own rotation means: its stiffness tensor expressed in the rotated axes.  Handing that tensor over
+        # directly (no precipitate rotation) must give the same energy - whatever the matrix rotation is.
+        from kawin.precipitation.parameters import ElasticFactors as EF
+        c4 = EF.convert2To4rankTensor(_stiff(case["cP"])) if np.ndim(_stiff(case["cP"])) == 2 else _stiff(case["cP"])
+        c4r = EF.rotateRank4Tensor(_rot(case["rotP"]), c4)
+        Er = float(_build(dict(case, cP=["explicit", c4r.tolist()], rotP=None, rotP_hist=None)).compute(r))
+        if not math.isclose(Er, E, rel_tol=1e-9, abs_tol=1e-12 * scale):
+            out.fail("precipitate_rotation_not_applied", "precipitate stiffness %r with setRotationPrecipitate: energy %r; the same tensor rotated beforehand and no precipitate rotation: %r (matrix rotation %r)" % (case["cP"], E, Er, case.get("rot")))
     if case.get("rot"):
+        # the matrix rotation means: the matrix stiffness expressed in the rotated axes
+        from kawin.precipitation.parameters import ElasticFactors as EF
+        m4 = EF.convert2To4rankTensor(_stiff(case["cM"])) if np.ndim(_stiff(case["cM"])) == 2 else _stiff(case["cM"])
+        m4r = EF.rotateRank4Tensor(_rot(case["rot"]), m4)
+        Emr = float(_build(dict(case, cM=["explicit", m4r.tolist()], rot=None, rot_hist=None)).compute(r))
+        if not math.isclose(Emr, E, rel_tol=1e-9, abs_tol=1e-12 * scale):
+            out.fail("matrix_rotation_not_applied", "matrix stiffness %r with setRotationMatrix: energy %r; the same tensor rotated beforehand and no rotation: %r" % (case["cM"], E, Emr))
         Eo = float(_build(case, rot_first=False).compute(r))
         if not math.isclose(Eo, E, rel_tol=1e-9, abs_tol=1e-12 * scale):
             out.fail("setter_order_matters", "rotation set before the stiffness: %r; after: %r" % (E, Eo))
